@@ -7,6 +7,26 @@ PY = '/venv/bin/python -B -m vf.run'
 
 # id -> (engine, category, technique, level text, level_note, design_ref)
 CHECKS = {
+ 'C06': ('VX+DM', 'exploration',
+         'bounded-exhaustive enumeration of parameter patterns, literal strings/values, LIKE patterns and identifiers; executed on SQLite or lexed under dialect lexical models',
+         '(a) all order/repetition patterns of <= 4 (thorough 5) parameter occurrences over 3 keys x 4 AST templates x 5 paramstyles x 4 builders, built by the real SQLBuilder, bound by the PEP 249 binder model and executed on SQLite; (b) every string of length <= 3 (thorough 4) over a quote/backslash/percent/LIKE-metacharacter alphabet plus 68 numeric/date/time/bytes/bool boundary values through Value/SQLiteValue/PGValue/MySQLValue x 5 styles, executed (SQLite) or lexed and decoded (others); (c) every LIKE pattern of length <= 3 (thorough 4) over {% _ ! a} as constant/parameter/column in startswith/endswith/in/not in against all subjects through real queries on SQLite; (d) every name of length <= 2 (thorough 3) over {" ` . space ; a} in 8 schema positions with schema creation + CRUD on SQLite, and quote_name re-lexing per dialect.',
+         'PostgreSQL/MySQL/Oracle lexical rules and driver %-interpolation are small models (the standard-SQL model is self-checked against SQLite on every string); SQLite date/time literals are judged against the provider\'s own bound-parameter encoding; exceptions raised by Pony itself count as refusals.', 'DESIGN.md section 3 C06'),
+ 'C30': ('VX+PX', 'exploration',
+         'bounded-exhaustive enumeration of raw SQL strings over a fragment alphabet x paramstyles x entry points against a reference substituter; all ordered pairs vs cold results from pristine forked processes',
+         'Every SQL string of <= 3 (thorough 4) fragments over {text, $x, $o.y.z, $f(x,\'a)b\'), $d[\'k\'], $(x+1), $x;, $$, %, %%, %s, \'$quoted\', lone $} through adapt_sql x 5 paramstyles, Database.select/get/exists/execute, select_by_sql/get_by_sql and six raw_sql() query forms, with frame scope and explicit dicts, on SQLite (qmark and named, real engine) and PostgreSQL/MySQL/Oracle/numeric capture providers; text+values reaching the database after driver binding are compared with a reference substituter written from the documentation, and on SQLite the echoed rows. All ordered pairs of (entry, style, statement) items are compared with cold results; pristine forked processes give the cold references.',
+         'format/pyformat interpolation and numeric/Oracle-named binding are DM models; malformed strings are counted, not judged; pairs are separated by restoring the pristine content of every container/*cache* attribute of pony modules and objects (a cache hidden in a closure is seen only through the forked references).', 'DESIGN.md section 3 C30'),
+ 'C31': ('SX+VX', 'model_checking',
+         'explicit-state BFS; serialisations of every object in every state against the twin session view; pickle round trips across sessions; exhaustive composite-key encoding pairs',
+         'In every state of depth <= 1 (thorough 2) from both fixtures: obj.to_dict() under 12 option combinations, serialization.to_dict/Bag/to_json equal the public view of a twin; every loaded object, collection and entity scan is pickled and unpickled in a new session (equal values, identity-map object). All two-part composite keys with parts of length <= 3 over {*, comma, a} are encoded distinctly (encoder and end to end).',
+         'SQLite only; the auto-pk model is skipped for dictionary comparison.', 'DESIGN.md section 3 C31'),
+ 'C32': ('SX', 'model_checking',
+         'exhaustive enumeration of (history, pre-read, end kind, strict) session endings x stale-operation alphabet, inside and outside a new session',
+         'Sessions of depth <= 1 (thorough 2) x {everything read, nothing read} x {commit, exception, rollback()+leave} x strict {False, True} leave objects of every status; then ~80 stale operations per object are applied outside any session and inside a new one: values read before the end stay readable and equal (non-strict); assignment, set(), collection changes, delete, obj.flush() with pending changes, load() raise a Pony session error, issue no driver call and leave the rows unchanged.',
+         '"session error" = any pony.orm.core.OrmError subclass; strict sessions: reads are not judged.', 'DESIGN.md section 3 C32'),
+ 'C33': ('SX', 'model_checking',
+         'explicit-state BFS over histories ending in flush/commit/obj.flush() under 8 hook-body configurations; matching of the merged hook + driver log',
+         'For 6 before_* hook bodies (nothing, read, modify self, modify another object, create an object, delete another object) x 2 after_* bodies: every INSERT/UPDATE/DELETE of an object (attributed by table and primary-key parameter of the real SQL) is preceded by exactly one matching before_* call since its previous statement and followed by exactly one after_* call; edits and objects made in before_* hooks are in the committed rows.',
+         'a before_* call whose statement is later cancelled by another hook is not excluded by the property and not flagged; SQLite only.', 'DESIGN.md section 3 C33'),
  'C07': ('VX+DM', 'exploration',
          'bounded-exhaustive product of attribute declarations x boundary value grids x write paths, five independent read paths as differential oracle',
          '114 attribute declarations (every basic type with each converter-relevant option, Required and Optional) x per-type boundary grids x {INSERT, UPDATE} on real SQLite: the value a fresh session reads by pk, by projection, and finds when the value is used as query parameter / get() argument / optimistic-check operand equals the value the writing session saw after flush. Plus exhaustive grids over the pure-Python interval, timestamp and DATETIME codecs, precision 0..6 and converter round trips of the PostgreSQL and MySQL providers.',
